@@ -27,6 +27,11 @@ Section RunX.
       | KVal _ _ _ =>
           let s := match prev with
                    | Some (KOut t st) => set_val s v (lookup (KOut t st) (s_vals s))
+                   | Some (KVal n2 t2 s2) =>
+                       match lookup (KVal n2 t2 s2) (s_vals s) with
+                       | Some x => set_val s v (Some x)
+                       | None => s
+                       end
                    | _ => s end in
           let cur := lookup v (s_vals s) in
           let s := set_last s cur in
@@ -287,7 +292,8 @@ Section Inv.
           * inversion E; subst. eapply Hrec; eauto.
         + cbn [walkX] in E. apply IH in E.
           rewrite core_set_last in E.
-          destruct prev as [[| | | |t0 st0]|]; exact E.
+          destruct prev as [[| |n0 t0 st0| |t0 st0]|]; try exact E.
+          destruct (lookup (KVal n0 t0 st0) (s_vals s)); exact E.
         + cbn [walkX] in E. apply IH in E.
           destruct (s_last s) as [x|]; [destruct (assignable u (v_ty x) t)|]; exact E.
         + cbn [walkX] in E. apply IH in E.
